@@ -2140,10 +2140,14 @@ pub mod verif {
                 }
             }
             if let Some(fuel) = s.fuel.as_mut() {
-                if *fuel == 0 {
+                // never stop at the first byte of a chunk: the error report looks at the byte
+                // before the instruction pointer, as it may after any real instruction
+                let at_start = vm.active_chunk.code.is_empty()
+                    || vm.ip as usize == vm.active_chunk.code.as_ptr() as usize;
+                if *fuel == 0 && !at_start {
                     return Some(Error::with_message(ErrorKind::RuntimeError, FUEL_MESSAGE));
                 }
-                *fuel -= 1;
+                *fuel = fuel.saturating_sub(1);
             }
             None
         })
